@@ -275,34 +275,58 @@ mutual
     | (_, v) :: kvs => hashInput v ++ hashFields kvs
 end
 
-/-! ### Inherited fields (`lower_class` + `collect_inherited_fields`, src/backend/ir/lower/decl.rs) -/
+/-! ### Inherited fields and methods (`lower_class`, `collect_inherited_fields`, `collect_inherited_methods`,
+src/backend/ir/lower/decl.rs and lower/mod.rs) -/
 
-structure ClassDecl where
+/-- A class declaration as the lowering pass keeps it in `class_decls`: its name, the class it extends and what it
+declares itself (`α` = its fields, or the names of its methods). -/
+structure Decl (α : Type) where
   name : String
   parent : Option String
-  fields : List (List Char × Ty)
+  own : α
 
-def findClass (cs : List ClassDecl) (n : String) : Option ClassDecl := cs.find? (fun c => c.name == n)
+def findDecl {α : Type} (cs : List (Decl α)) (n : String) : Option (Decl α) := cs.find? (fun c => c.name == n)
+
+/-- A linear chain of declarations, root first: each level extends the one before it. -/
+def chainDecls {α : Type} : List (String × α) → Option String → List (Decl α)
+  | [], _ => []
+  | (n, x) :: rest, parent => ⟨n, parent, x⟩ :: chainDecls rest (some n)
+
+abbrev Fields := List (List Char × Ty)
 
 /-- `collect_inherited_fields`: the grandparents' fields first, then the parent's own.  The implementation recurses
 without a bound; the checker rejects cyclic chains (a `fix:` commit), so the number of classes bounds the depth. -/
-def inheritedFields (cs : List ClassDecl) : Nat → String → List (List Char × Ty)
+def inheritedFields (cs : List (Decl Fields)) : Nat → String → Fields
   | 0, _ => []
-  | fuel + 1, n => match findClass cs n with
+  | fuel + 1, n => match findDecl cs n with
     | none => []
     | some c => (match c.parent with
       | some g => inheritedFields cs fuel g
-      | none => []) ++ c.fields
+      | none => []) ++ c.own
 
 /-- The fields of the struct emitted for a class: inherited ones first, then its own. -/
-def classFields (cs : List ClassDecl) (c : ClassDecl) : List (List Char × Ty) :=
+def classFields (cs : List (Decl Fields)) (c : Decl Fields) : Fields :=
   (match c.parent with
   | some p => inheritedFields cs cs.length p
-  | none => []) ++ c.fields
+  | none => []) ++ c.own
 
-/-- A linear chain of declarations, root first: each level extends the one before it. -/
-def chainDecls : List (String × List (List Char × Ty)) → Option String → List ClassDecl
-  | [], _ => []
-  | (n, fs) :: rest, parent => ⟨n, parent, fs⟩ :: chainDecls rest (some n)
+/-- `methods.retain(|e| e.name != m.name); methods.push(m)` for each method the class declares; an entry is
+(method name, class whose body it is). -/
+def addOwn (acc : List (String × String)) (owner : String) : List String → List (String × String)
+  | [] => acc
+  | m :: ms => addOwn (acc.filter (fun e => e.1 != m) ++ [(m, owner)]) owner ms
+
+/-- `collect_inherited_methods`: the ancestors' methods, overridden by the class's own. -/
+def inheritedMethods (cs : List (Decl (List String))) : Nat → String → List (String × String)
+  | 0, _ => []
+  | fuel + 1, n => match findDecl cs n with
+    | none => []
+    | some c => addOwn (match c.parent with
+      | some g => inheritedMethods cs fuel g
+      | none => []) c.name c.own
+
+/-- Which class's body a call of `m` on an instance runs (the impl block holds exactly these entries). -/
+def dispatch (entries : List (String × String)) (m : String) : Option String :=
+  (entries.find? (fun e => e.1 == m)).map (·.2)
 
 end Incan.Derive
